@@ -1,6 +1,7 @@
 package main
 
 import (
+	"strconv"
 	"os"
 	"path/filepath"
 	"strings"
@@ -103,6 +104,41 @@ func init() {
 				}
 			}
 		}
+		grammarSentences(c, c.Pick(1500, 20000))
 		c.Sample(map[string]any{"table": "parser-rules", "first": p.RuleNames[0], "count": len(p.RuleNames)})
+	}
+}
+
+// grammarSentences: random sentences derived from the grammar itself (the Lean driver derives them from the
+// rule bodies translated from OpenFGAParser.g4 on this run: every alternative, option and repetition of every
+// rule is taken).  Each text goes to the real lexer and parser and to their Lean models, which must agree on
+// tokens, on acceptance and on the parse tree; an accepted text's tree must be a derivation by the grammar.
+func grammarSentences(c *Ctx, n int) {
+	ops := make([]string, 0, n)
+	for i := 0; i < n; i++ {
+		ops = append(ops, L("gen-sentence", strconv.Itoa(int(c.Seed)*1000003+i), strconv.Itoa(3+i%10)))
+	}
+	lines, err := c.D.Ask(ops)
+	if err != nil {
+		c.R.Disagreements = append(c.R.Disagreements, Case{Stream: "grammar-sentences", Kind: "correspondence", Detail: "driver: " + err.Error()})
+		return
+	}
+	for _, l := range lines {
+		x := parseSX(l)
+		if x.Head() != "sentence" || len(x.List) != 2 {
+			c.R.Disagreements = append(c.R.Disagreements, Case{Stream: "grammar-sentences", Kind: "correspondence", Detail: "unexpected answer: " + trunc(l, 200)})
+			return
+		}
+		text := x.List[1].Atom
+		c.R.Evaluations++
+		r := parseFull(text)
+		if len(r.Errs) == 0 {
+			c.Dist("grammar_sentences_accepted")
+			c.Nontrivial(text)
+		} else {
+			c.Dist("grammar_sentences_rejected")
+		}
+		grammarConform(c, "sentences", text, r.Tree, len(r.Errs))
+		frontCorr(c, "sentences", text, text, r)
 	}
 }
